@@ -30,6 +30,7 @@
                 about 10x faster than Z / positive numerals, which dominated the shard time)
      rot_parts_r / rot_parts_inv_r / apply_parts_r   fastest exact evaluation of rot_impl q * v and
                 rot_impl (qinv q) * v (common denominator); see the comment at their definition
+     rot_n / close_rot   rot with un-reduced quotients; "same rotation matrix within tol" on quaternions
      tolerance  close_abs tol scale a b  :=  |a - b| <= tol * scale   (bool, in Q) and its liftings *)
 From Coq Require Import QArith Qabs Qminmax Qreduction Bool List Uint63.
 Import ListNotations.
@@ -232,6 +233,16 @@ Definition apply_parts_r (md : mat * Q) (v : vec) : vec :=
 (* qinv with the squared norm computed in lowest terms and the quotients left un-reduced *)
 Definition qinv_n (q : quat) : quat :=
   let n := n2_r q in mkQ (qw q / n) (- qx q / n) (- qy q / n) (- qz q / n).
+
+(* rot q with one reduction of the squared norm and un-reduced quotients (for comparisons only) *)
+Definition rot_n (q : quat) : mat :=
+  let n := n2_r q in let M := rotNd_r n q in
+  mkM (m00 M / n) (m01 M / n) (m02 M / n) (m10 M / n) (m11 M / n) (m12 M / n) (m20 M / n) (m21 M / n) (m22 M / n).
+(* two quaternions denote the same rotation within tol on every matrix entry (entries are <= 1 in size, so
+   this is the property's "relative tolerance on matrix entries"); the zero quaternion only matches itself *)
+Definition close_rot (tol : Q) (a b : quat) : bool :=
+  if Qeq_bool (n2_r a) 0 then Qeq_bool (n2_r b) 0
+  else negb (Qeq_bool (n2_r b) 0) && close_mat tol 1 (rot_n a) (rot_n b).
 
 (* ------------------------------------------------------------------ exact literals for IEEE doubles
    A finite double is (+/-) m * 2^(+/-)e with m < 2^53; harness/props/c05.py (_cf) writes it with these. *)
